@@ -72,6 +72,12 @@ fn main() {
         let mut ew_f: EWMAStream<f32, DF, E> = EWMAStream::new(sf.dynref(), c.smoothing);
         let mut ew_q: EWMAStream<Quantity, DQ, E> = EWMAStream::new(sq.dynref(), c.smoothing);
         if rep.want_sample("filters") { rep.sample("filters", format!("window={}ns smoothing={} history[..8]={:?}", c.window, c.smoothing, &c.h[..c.h.len().min(8)])); }
+        // in half of the cases a second, differently parameterised pair of filters lives alongside and is updated with the
+        // same timestamps (other values) just before the filters under test: instances must not influence each other
+        let disturb = case % 2 == 1;
+        let dsrc = Src::<f32>::new();
+        let mut d_ew: EWMAStream<f32, DF, E> = EWMAStream::new(dsrc.dynref(), if c.smoothing == 0.25 { 0.75 } else { 0.25 });
+        let mut d_ma: MovingAverageStream<f32, DF, E> = MovingAverageStream::new(dsrc.dynref(), Time(c.window / 3 + 1));
         let mut win: Vec<(i64, f32)> = Vec::new(); // samples since last error (moving average model)
         let mut ew_prev: Option<(i64, f32)> = None; // EWMA: previous output (observed) and its time
         let mut ew_minmax: Option<(f32, f32)> = None;
@@ -82,6 +88,11 @@ fn main() {
                 Ev::Some(t, v) => { sf.some(*t, *v); sq.some(*t, Quantity::new(*v, MILLIMETER)); }
                 Ev::None => { sf.none(); sq.none(); }
                 Ev::Err(x) => { sf.err(*x); sq.err(*x); }
+            }
+            if disturb {
+                match e { Ev::Some(t, v) => dsrc.some(*t, -0.5 * *v + 1.0), Ev::None => dsrc.none(), Ev::Err(x) => dsrc.err(*x) }
+                let _ = catch(|| { let _ = d_ew.update(); let _ = d_ma.update(); let _ = d_ew.get(); let _ = d_ma.get(); });
+                rep.tally("updates_with_a_second_instance_alongside");
             }
             let r = catch(|| { let _ = ma_f.update(); let _ = ma_q.update(); let _ = ew_f.update(); let _ = ew_q.update(); });
             rep.eval();
@@ -241,6 +252,7 @@ fn main() {
         }
         rep.distinct((occupancy_class, c.window.ilog10(), (c.smoothing * 4.0) as u32, c.h.iter().any(|e| matches!(e, Ev::Err(_))), c.h.iter().any(|e| matches!(e, Ev::None))));
     }
+    rep.floor("updates_with_a_second_instance_alongside", 1000);
     rep.floor("ma_window_shorter_than_step", 50);
     rep.floor("ma_window_longer_than_history", 50);
     rep.floor("ma_window_partial", 50);
